@@ -99,3 +99,10 @@ Theorem C19_repo_order_init :
   = lits ["config.init"; "sys.exit"; "config.default_config"; "sys.exit"; "config.write_content"].
 Proof. exact c19_order_init. Qed.
 Print Assumptions C19_repo_order_init.
+
+(* this year's initial version: the formats read from the source use the calendar year *)
+From BV Require Import Proofs.InitFacts.
+Theorem C19_repo_initial_version_formats :
+  INITIAL_VERSION_FMT = lit "%Y.1001-alpha" /\ INITIAL_VERSION_PEP440_FMT = lit "%Y.1001a0".
+Proof. exact repo_initial_version_formats. Qed.
+Print Assumptions C19_repo_initial_version_formats.
